@@ -549,7 +549,14 @@ class Engine:
         if ob["kind"] == "call" and ob["what"].startswith("unwrap_res") and any(r.startswith("X:serde_json::ser::to_string") for r in d.get("prov", [])):
             st = (fn.get("impl") or {}).get("self_ty")
             why = []
-            if st and serde_safe(self.fx, st, set(), why):
+            if not st and fn.get("generics"):
+                # a generic helper (`fn json<T: Serialize>(v: &T)`): every type it is instantiated with must be safe
+                types = sorted(t_ for t_ in self.cg.instantiations(fid) if t_ in self.fx.adts)
+                if types and all(serde_safe(self.fx, t_, set(), why) for t_ in types):
+                    chk.ok(rule, key, "D-SERDE: the helper is instantiated with %d types, all with derived Serialize impls, infallible helpers and string/integer/unit-enum map keys" % len(types), site)
+                    return
+                st = ", ".join(short(t_) for t_ in types) or None
+            if st and "," not in st and serde_safe(self.fx, st, set(), why):
                 chk.ok(rule, key, "D-SERDE: only derived Serialize impls, infallible helpers and string/integer/unit-enum map keys under " + short(st), site)
                 return
             chk.bad(rule, key, "serde_json::to_string(..).unwrap(): serialisation of %s can fail (%s)" % (short(st or "?"), "; ".join(why)), site, d)
